@@ -67,9 +67,15 @@ class Occupancy:
     # ------------------------------------------------------------------
     def run(self, tree):
         self._ids = itertools.count()
+        self._persistent = set()
         plan = self._prepare(tree, {})
         ranges = {rv: (0, b) for rv, b in self.w["ranks"].items()}
         self._walk(plan, 0, ranges)
+        # a persistent holder is resident for the whole workload
+        for mode in self.inst.values():
+            for key, rec in mode.items():
+                if key[0] in self._persistent:
+                    rec[0], rec[1] = 1, self.step
         return self
 
     def _prepare(self, nodes, active):
@@ -85,6 +91,8 @@ class Occupancy:
                     h.backing = h.parent is None or all(self._is_toll_chain(h.parent))
                     active[t] = h
                     hs.append(h)
+                    if n.get("persistent"):
+                        self._persistent.add(h.nid)
                 out.append({"t": "S", "holders": hs})
             elif n["t"] == "Q":
                 out.append({"t": "Q", "branches": [self._prepare(b, active) for b in n["branches"]]})
